@@ -82,6 +82,53 @@ let () =
         String.concat " " (List.map (fun d -> field_of_list (List.sort compare d)) (stale_history prior rs))
       | _ -> "ERR args")
 
+(* ---- codecs (C15) ---- *)
+let vkinds = [| VInvalid; VVirtualInput; VExistingInput; VMissingInput; VDirectoryContents; VDirectoryTreeSignature;
+   VDirectoryTreeStructureSignature; VStaleFileRemoval; VMissingOutput; VFailedInput; VSuccessfulCommand;
+   VFailedCommand; VPropagatedFailureCommand; VCancelledCommand; VSkippedCommand; VTarget;
+   VFilteredDirectoryContents; VSuccessfulCommandWithOutputSignature |]
+let vkind_index k = let r = ref (-1) in Array.iteri (fun i x -> if x = k then r := i) vkinds; !r
+let pad32 l = let rec go l n = if n = 0 then [] else match l with [] -> N0 :: go [] (n-1) | x :: t -> x :: go t (n-1) in go l 32
+let fi_of_string s = match String.split_on_char ':' s with
+  | [a;b;c;d;e;f;g] -> { fi_device = n_of_dec a; fi_inode = n_of_dec b; fi_mode = n_of_dec c; fi_size = n_of_dec d;
+                         fi_sec = n_of_dec e; fi_nsec = n_of_dec f; fi_checksum = pad32 (bytes_of_hex g) }
+  | _ -> failwith "fileinfo"
+let string_of_fi f = String.concat ":" [dec_of_n f.fi_device; dec_of_n f.fi_inode; dec_of_n f.fi_mode; dec_of_n f.fi_size;
+                                        dec_of_n f.fi_sec; dec_of_n f.fi_nsec; hex_of_bytes f.fi_checksum]
+let fis_of_field s = if s = "." then [] else List.map fi_of_string (String.split_on_char ';' s)
+let field_of_fis l = if l = [] then "." else String.concat ";" (List.map string_of_fi l)
+let show_value v = Printf.sprintf "%d %s %s %s" (vkind_index v.bv_kind) (dec_of_n v.bv_sig) (field_of_fis v.bv_infos) (field_of_list v.bv_strs)
+let () =
+  register "value_enc" (function [k; sg; infos; strs] ->
+      let kind = vkinds.(int_of_string k) in
+      (* the factories ignore the parts a kind does not carry *)
+      let v = { bv_kind = kind; bv_sig = (if has_sig kind then n_of_dec sg else N0);
+                bv_infos = (if has_info kind then (let l = fis_of_field infos in
+                                                   if kind = VExistingInput || kind = VDirectoryContents then [List.hd l] else l) else []);
+                bv_strs = (if has_strs kind then list_of_field strs else []) } in
+      hex_of_bytes (enc_value v) | _ -> "ERR args");
+  register "value_dec" (function [h] -> (match dec_value (bytes_of_hex h) with Some v -> show_value v | None -> "NONE") | _ -> "ERR args");
+  register "key_enc" (function [k; name; data; filters] ->
+      let n = bytes_of_hex name and d = bytes_of_hex data and f = list_of_field filters in
+      let key = match int_of_string k with
+        | 0 -> KCommand n | 1 -> KCustomTask (n, d) | 2 -> KDirectoryContents n | 3 -> KFilteredDirectoryContents (n, f)
+        | 4 -> KDirectoryTreeSignature (n, f) | 5 -> KDirectoryTreeStructureSignature (n, f) | 6 -> KNode n | 7 -> KStat n | _ -> KTarget n in
+      hex_of_bytes (enc_key key) | _ -> "ERR args");
+  register "key_dec" (function [h] ->
+      (match dec_key (bytes_of_hex h) with
+       | None -> "NONE"
+       | Some k -> (match k with
+           | KCommand n -> "0 " ^ hex_of_bytes n ^ " - ."
+           | KCustomTask (n, d) -> "1 " ^ hex_of_bytes n ^ " " ^ hex_of_bytes d ^ " ."
+           | KDirectoryContents n -> "2 " ^ hex_of_bytes n ^ " - ."
+           | KFilteredDirectoryContents (n, f) -> "3 " ^ hex_of_bytes n ^ " - " ^ field_of_list f
+           | KDirectoryTreeSignature (n, f) -> "4 " ^ hex_of_bytes n ^ " - " ^ field_of_list f
+           | KDirectoryTreeStructureSignature (n, f) -> "5 " ^ hex_of_bytes n ^ " - " ^ field_of_list f
+           | KNode n -> "6 " ^ hex_of_bytes n ^ " - ."
+           | KStat n -> "7 " ^ hex_of_bytes n ^ " - ."
+           | KTarget n -> "8 " ^ hex_of_bytes n ^ " - ."))
+    | _ -> "ERR args")
+
 (* MAIN-LOOP (keep last) *)
 let () =
   try
